@@ -32,6 +32,9 @@ type HarnessOpt struct {
 	MapOrders bool
 	Workers   int // modelled GOMAXPROCS
 	ThoroughOnly bool
+	// QuickBoundsOnly: the thorough tier runs this harness with its quick bounds
+	// (the deeper bounds were not validated to finish on the unchanged tree)
+	QuickBoundsOnly bool
 	UnwindIsViolation bool
 	Merge []string
 	IfConv bool
@@ -51,6 +54,8 @@ type Property struct {
 	Rule        string
 	Extra       func(r *Runner) // additional non-harness obligations
 	Hooks       []HookSpec
+	// QuickBoundsOnly: the thorough tier of this property runs the quick bounds
+	QuickBoundsOnly bool
 }
 
 type HarnessResult struct {
@@ -171,6 +176,7 @@ func (r *Runner) optFor(name string) HarnessOpt {
 			o.MapOrders = c.MapOrders
 			o.Workers = c.Workers
 			o.ThoroughOnly = c.ThoroughOnly
+			o.QuickBoundsOnly = c.QuickBoundsOnly
 			o.UnwindIsViolation = c.UnwindIsViolation
 			o.Merge = c.Merge
 			o.IfConv = c.IfConv
@@ -233,7 +239,7 @@ func (r *Runner) runHarness(rel string, fn *ssa.Function, workers int) *HarnessR
 		}
 	}
 	tier := 0
-	if r.Tier == "thorough" {
+	if r.Tier == "thorough" && !o.QuickBoundsOnly && !r.Prop.QuickBoundsOnly {
 		tier = 1
 	}
 	mk := func() (*ssaexec.Exec, error) {
@@ -312,7 +318,7 @@ func (r *Runner) Run() int {
 	var jobs []job
 	for _, h := range hs {
 		o := r.optFor(h.fn.Name())
-		if o.ThoroughOnly && r.Tier != "thorough" {
+		if o.ThoroughOnly && (r.Tier != "thorough" || r.Prop.QuickBoundsOnly || o.QuickBoundsOnly) {
 			continue
 		}
 		if r.Only != "" && !strings.HasPrefix(h.fn.Name(), r.Only) {
@@ -655,6 +661,9 @@ func (r *Runner) writeEvidence(results []*HarnessResult, outs []FindingOut, vali
 			for k, v := range hr.Stats.Merged {
 				notes[fmt.Sprintf("merged pure callee %s", k)] = true
 				_ = v
+			}
+			if r.Tier == "thorough" && (r.Prop.QuickBoundsOnly || r.optFor(hr.Name).QuickBoundsOnly) {
+				notes["thorough tier run with the quick bounds for "+hr.Name+": deeper bounds were not validated to finish on the unchanged tree in the time available"] = true
 			}
 			if hr.Stats.Poisoned > 0 {
 				notes["G: some branch conditions left the exact domain and were over-approximated"] = true
